@@ -188,6 +188,38 @@ class Interp:
     def combinator(self, f, args):
         """Option/Result combinators applied to a known variant: [(ret, events, end)] or None"""
         key = (f.get("self_adt"), f.get("name"))
+        a0 = args[0] if args else None
+        if key[0] in ("core::option::Option", "core::result::Result") and isinstance(a0, Agg) and a0.name == key[0]:
+            hit = a0.variant in ("Some", "Ok")
+            inner = list(a0.fields[:1])
+            nm = key[1]
+            if nm == "map_or" and len(args) == 3:
+                if hit:
+                    return self.call_value(args[2], inner)
+                return [(args[1], [], "return", dict(self.mstate))]
+            if nm == "map_or_else" and len(args) == 3:
+                if hit:
+                    return self.call_value(args[2], inner)
+                return self.call_value(args[1], [] if key[0].endswith("Option") else inner)
+            if nm in ("is_some_and", "is_ok_and") and len(args) == 2:
+                if hit:
+                    return self.call_value(args[1], inner)
+                return [(False, [], "return", dict(self.mstate))]
+            if nm == "is_none_or" and len(args) == 2:
+                if hit:
+                    return self.call_value(args[1], inner)
+                return [(True, [], "return", dict(self.mstate))]
+            if nm == "unwrap_or" and len(args) == 2:
+                return [(inner[0] if hit else args[1], [], "return", dict(self.mstate))]
+        if f.get("key") == "bool::then_some" and len(args) == 2 and isinstance(a0, bool):
+            return [(some(args[1]) if a0 else NONE, [], "return", dict(self.mstate))]
+        if f.get("key") == "bool::then" and len(args) == 2 and isinstance(a0, bool):
+            if not a0:
+                return [(NONE, [], "return", dict(self.mstate))]
+            outs = self.call_value(args[1], [])
+            if outs is None:
+                return None
+            return [(some(r) if e == "return" else r, ev, e, ms) for (r, ev, e, ms) in outs]
         if key not in self.COMBINATORS or len(args) < 2:
             return None
         a0 = args[0]
@@ -667,6 +699,11 @@ def std_oracle(interp, env, f, args, t, bb, path):
         return TOP
     if key in ("core::ops::deref::Deref::deref", "core::ops::deref::DerefMut::deref_mut", "core::borrow::Borrow::borrow",
                "core::convert::AsRef::as_ref", "core::convert::AsMut::as_mut"):
+        # a guard / smart pointer held in a local: its target is what the local's value refers to
+        if isinstance(a0, Ref):
+            inner = interp.read_place(env, [a0.local, a0.proj])
+            if isinstance(inner, (Ref, HRef)):
+                return inner
         v = deref(a0)
         if isinstance(v, Sym) and "deref" in v.fields:
             return v.fields["deref"]
@@ -675,6 +712,9 @@ def std_oracle(interp, env, f, args, t, bb, path):
         return deref(a0)
     if key in ("core::convert::Into::into", "core::convert::From::from") and (f.get("gargs") or [None, None])[0] == (f.get("gargs") or [None, None])[-1]:
         return a0
+    if key in ("core::convert::Into::into", "core::convert::From::from") and isinstance(a0, (int, float)) and not isinstance(a0, bool):
+        dst = (f.get("gargs") or [""])[-1] if key.endswith("into") else (f.get("gargs") or [""])[0]
+        return float(a0) if dst in ("f64", "f32") else a0
     if key == "core::clone::Clone::clone":
         return deref(a0)
     if key in ("core::cmp::PartialOrd::lt", "core::cmp::PartialOrd::le", "core::cmp::PartialOrd::gt", "core::cmp::PartialOrd::ge",
